@@ -15,7 +15,7 @@ import shutil
 import subprocess
 import sys
 
-BASE = "/tmp/mw"
+BASE = "/tmp/mw_%d" % os.getpid()
 
 
 def _worker_dir(k):
@@ -27,7 +27,7 @@ def _worker_dir(k):
 
 
 def _run(args):
-    i, row, tests, timeout = args
+    i, row, tests, timeout, deselect = args
     k = mp.current_process()._identity[0] if mp.current_process()._identity else 0
     d = _worker_dir(k)
     rel = row["rel"]
@@ -40,7 +40,7 @@ def _run(args):
             fh.write(new)
         try:
             r = subprocess.run(["/venv/bin/python", "-m", "pytest", "-x", "-q", "-p", "no:cacheprovider",
-                                "--timeout=120"] + tests, cwd=d, stdout=subprocess.PIPE, stderr=subprocess.STDOUT,
+                                "--timeout=120"] + deselect + tests, cwd=d, stdout=subprocess.PIPE, stderr=subprocess.STDOUT,
                                text=True, timeout=timeout)
             tail = r.stdout.strip().splitlines()[-1] if r.stdout.strip() else ""
             res = "tests-pass" if r.returncode == 0 else "tests-fail"
@@ -70,9 +70,17 @@ def main():
         rows = [r for r in rows if r["kind"] in a.kinds]
     print("%d mutants to test with %s" % (len(rows), a.tests), flush=True)
     os.makedirs(BASE, exist_ok=True)
+    # baseline: tests that fail / error on the unchanged tree are deselected
+    r = subprocess.run(["/venv/bin/python", "-m", "pytest", "-q", "-p", "no:cacheprovider", "--timeout=120", "-rfE"] + a.tests,
+                       cwd="/repo", stdout=subprocess.PIPE, stderr=subprocess.STDOUT, text=True)
+    deselect = []
+    for ln in r.stdout.splitlines():
+        if ln.startswith(("FAILED ", "ERROR ")):
+            deselect += ["--deselect", ln.split()[1]]
+    print("baseline: %s; deselected %d" % (r.stdout.strip().splitlines()[-1], len(deselect) // 2), flush=True)
     try:
         with mp.get_context("fork").Pool(a.jobs) as pool:
-            res = pool.map(_run, [(i, r, a.tests, a.timeout) for i, r in enumerate(rows)], chunksize=1)
+            res = pool.map(_run, [(i, r, a.tests, a.timeout, deselect) for i, r in enumerate(rows)], chunksize=1)
     finally:
         shutil.rmtree(BASE, ignore_errors=True)
     tot = {}
